@@ -161,7 +161,12 @@ func (f *Func) AssignIDs() error {
 				got := n.ID()
 				return errors.Errorf("invalid local ID in function %q, expected %s, got %s", f.Ident(), enc.LocalID(want), enc.LocalID(got))
 			}
-			n.SetID(id)
+			if n.ID() != id {
+				// Only write when the ID changes, so that printing an already
+				// numbered value never writes (concurrent printers read IDs
+				// outside of the lock).
+				n.SetID(id)
+			}
 			id++
 		}
 		return nil
